@@ -20,6 +20,10 @@ type (
 		totalQPSLimiterLock   sync.RWMutex
 		handlerQPSLimiter     map[string]*qpsLimiter
 		handlerQPSLimiterLock sync.RWMutex
+		// admitted holds the sessions that took a connection slot;
+		// only they give one back when they disconnect.
+		admitted     map[interface{}]struct{}
+		admittedLock sync.Mutex
 	}
 	// LimitConfig overload limitation condition
 	LimitConfig struct {
@@ -47,6 +51,7 @@ var (
 func New(initLimitConfig LimitConfig) *Overloader {
 	o := &Overloader{
 		handlerQPSLimiter: make(map[string]*qpsLimiter),
+		admitted:          make(map[interface{}]struct{}),
 	}
 	o.Update(initLimitConfig)
 	return o
@@ -68,8 +73,11 @@ func (o *Overloader) PostDial(sess erpc.PreSession, isRedial bool) *erpc.Status 
 
 // PostAccept checks connection overload.
 // If overload, print error log and close the connection.
-func (o *Overloader) PostAccept(_ erpc.PreSession) *erpc.Status {
+func (o *Overloader) PostAccept(sess erpc.PreSession) *erpc.Status {
 	if o.takeConn() {
+		o.admittedLock.Lock()
+		o.admitted[interface{}(sess)] = struct{}{}
+		o.admittedLock.Unlock()
 		return nil
 	}
 	msg := fmt.Sprintf("connection overload, limit=%d, now=%d",
@@ -79,8 +87,15 @@ func (o *Overloader) PostAccept(_ erpc.PreSession) *erpc.Status {
 }
 
 // PostDisconnect releases connection count.
-func (o *Overloader) PostDisconnect(_ erpc.BaseSession) *erpc.Status {
-	o.releaseConn()
+func (o *Overloader) PostDisconnect(sess erpc.BaseSession) *erpc.Status {
+	// a connection that was rejected (by this plugin or an earlier one) holds no slot
+	o.admittedLock.Lock()
+	_, ok := o.admitted[interface{}(sess)]
+	delete(o.admitted, interface{}(sess))
+	o.admittedLock.Unlock()
+	if ok {
+		o.releaseConn()
+	}
 	return nil
 }
 
